@@ -308,6 +308,11 @@ fn apply(mu: &Mutn, r: &mut Req, keys: &mut Vec<(String, String)>) -> bool {
 
 pub fn run(ctx: &Ctx) -> (Acc, Report) {
     let mut acc = ctx.acc();
+    // histories first, single-threaded and in a fixed order (see authhist.rs)
+    let (hist_n, hist_steps) = {
+        use crate::props::authhist::Scheme;
+        crate::props::authhist::explore(&mut acc, "C06", &[Scheme::V4Presigned], 3)
+    };
     let bs = bases();
     let t0 = amz_date_to_epoch(DATE).unwrap();
     let n_bases = bs.len();
@@ -428,7 +433,7 @@ pub fn run(ctx: &Ctx) -> (Acc, Report) {
         level: "exploration",
         rule: format!("{n_bases} presignable requests (GET/PUT x 7 keys (incl. a key that contains an escape-shaped text) x 5 extra-query shapes x signed headers {{host, host+meta}} x HTTP/1.1|2) x 14 X-Amz-Expires spellings x server-clock instants at signing time + {{-901,-900,-899,-1,0,1,E-1,E,E+1}} s and +-1 ms around both window edges; plus, inside the window, every single mutation/removal/duplication/case change of every query parameter, each signature digit, each credential field, method, each path byte, signed header value/removal, provider secret, and 2 equivalent rewrites. Oracle: reference verifier at the same instant. All judged cases are non-trivial; distinct by id."),
         exhaustive: true,
-        extra: json!({"base_requests": n_bases}),
+        extra: json!({"histories": hist_n, "history_requests_executed": hist_steps, "history_rule": "all sequences of length 1..3 over 8 requests of this property's scheme(s) (two identities x honest / signed with the other identity's secret x two scopes) plus every pair led by a request of another scheme, on one service instance, single-threaded, fixed order; each verdict = the reference verdict of that request alone", "base_requests": n_bases}),
         assumptions: vec![
             "wall clock owned through the verif-hooks seam (thread-local instant)".into(),
             "reference presigner validated on the documentation vector and against aws-sigv4's presigner on every base".into(),
